@@ -16,7 +16,7 @@ EXPLANATION = (
     "sets passed to unregister_peer are data-dependent on gr_on_disconnect(shutdown_reason, ..) (a hard reset / admin shutdown "
     "must not retain stale routes); gr_on_disconnect accepts only the listed reasons; R10.3 every cancel_gr_timer is followed "
     "on all paths by a GrState::process input, a re-arm or a purge; R10.4 every GrOutput the table can produce for an input is "
-    "consumed by the driver site that feeds that input; R10.5 the stale purge matches only (peer, stale source) entries. "
+    "consumed by the driver site that feeds that input; R10.5 the stale purge matches only (peer, stale source) entries and does not depend on the import verdict (is_filtered). "
     "Decides timer/purge pairing structure, not timer expiry timing.")
 ASSUMPTIONS = [
     "dropping a oneshot::Sender cancels the timer task; sending () fires it (tokio semantics as used by the repo)",
